@@ -1471,6 +1471,12 @@ _done:
 _ret_:
 %ifdef SAFE_DATA
         clear_all_xmms_sse_asm
+        ; Clear the encrypted tweak values kept on the stack (8 x 16 bytes)
+%assign j 0
+%rep 8
+        movdqu [TW + j*16], xmm0
+%assign j (j + 1)
+%endrep
         ; Clear expanded keys (16*15 bytes)
 %assign i 0
 %rep 15
